@@ -15,7 +15,7 @@ boundaries = atomic sections), ``Loop.schedule`` (the until-interrupt being sche
 ``Task.cancel``, plus the first statement of every payload of the program itself.  Every observation that concerns
 the scope under observation becomes one label of ScopeProto.v (see ``Observer`` for the rules); at the end the real
 objects are read: how the block was left (cause, what it raised) or in which phase the owner still is,
-``_interruptable``, and per payload ever passed to ``do()``: volatile, final status (from ``Task._result`` / the state
+``_interruptable``, the state of ``_cancel_self``, and per payload ever passed to ``do()``: volatile, final status (from ``Task._result`` / the state
 of the runner coroutine), whether the task is still in ``_children`` / ``_volatile_children``, whether its runner got
 past the pre-run check (payload started, or runner suspended in its start delay).
 
@@ -45,6 +45,13 @@ class Boom(Exception):
 
 class OuterBoom(Exception):
     pass
+
+
+class Livelock(BaseException):
+    """raised by the observer (outside every coroutine) when a run does not come to an end"""
+
+
+BUDGET = 5000   # activations per run; the generated programs need fewer than 300
 
 
 # ------------------------------------------------------------------ observation from outside
@@ -81,6 +88,7 @@ class Observer:
         self.S = None
         self.live = False
         self.labels = []
+        self.activations = 0
         self.anomalies = []
         self.kind = None
         self.n_do = 0
@@ -138,6 +146,12 @@ class Observer:
             self.emit('Fire')
             self.delay_due = None
         if target is S._activity:
+            if self.left and signal is not None:
+                # one of the scope's own signals reaching the owner after the block was left (the model: never)
+                if signal is S._cancel_self:
+                    self.emit('DeliverCancelSelf')
+                elif signal is getattr(S, '_interrupt', None):
+                    self.emit('DeliverInterrupt')
             if not self.left and (signal is None or type(signal) is CoreInterrupt):
                 if self.aexit is None:
                     self.emit('BodyStep')
@@ -303,7 +317,10 @@ class Observer:
         self.left = True
         self.exit_time = self.last_time
         if raised is not None:
-            self.outcome = 'ForeignExc' if raised is self.close_exc else 'ChildExc'
+            # (coroutine.close() raises a GeneratorExit of its own in every frame of an await chain, so the wrapper
+            # around __aexit__ does not see the instance that __aexit__ re-raised)
+            same = raised is self.close_exc or (isinstance(raised, GeneratorExit) and isinstance(self.close_exc, GeneratorExit))
+            self.outcome = 'ForeignExc' if same else 'ChildExc'
         elif self.aexit[0] == 'none' or returned:
             self.outcome = 'NoExc'
         else:
@@ -348,7 +365,9 @@ class Observer:
                 st = 'Done Failed'
             listed = any(t is x for x in S._children) or any(t is x for x in S._volatile_children)
             kids.append(dict(vol=self.vol[i], st=st, listed=listed, ran=bool(self.ran.get(i))))
-        return dict(phase=phase, interruptable=bool(S._interruptable), kids=kids)
+        c = S._cancel_self
+        return dict(phase=phase, interruptable=bool(S._interruptable),
+                    cancel_self='Revoked' if c._revoked else 'Scheduled' if c.scheduled else 'Idle', kids=kids)
 
 
 def _hooks():
@@ -358,6 +377,9 @@ def _hooks():
             o = OBS
             if o is None or not o.live:
                 return orig(self, target, signal)
+            o.activations += 1
+            if o.activations > BUDGET:
+                raise Livelock('more than %d activations' % BUDGET)
             o.act_begin(self, target, signal)
             try:
                 return orig(self, target, signal)
@@ -667,6 +689,11 @@ def run_real(case):
                 c.close()
             except BaseException:   # noqa
                 pass
+    # (a block that never ended is still subscribed to its flag; Notification.__del__ would complain on stderr)
+    sn = getattr(obs.S, '_notification', None)
+    for n in (prog.flag, ~prog.flag, sn, getattr(sn, '_transition', None)):
+        if n is not None:
+            n._waiting.clear()
     return out
 
 
@@ -674,7 +701,7 @@ def run_real(case):
 
 def gen_child(rng, depth=0):
     acts = []
-    for _ in range(rng.choice([0, 1, 1, 2, 2, 3])):
+    for _ in range(rng.choice([0, 1, 1, 2, 2, 3, 4, 5])):
         r = rng.random()
         if r < .50:
             acts.append(['sleep', rng.choice([0, 0, 1, 1, 2])])
@@ -728,7 +755,7 @@ def gen_case(rng, kinds=('plain', 'until')):
     else:
         flag_init = rng.random() < .1
     body = []
-    for _ in range(rng.choice([1, 2, 3, 3, 4, 5, 6])):
+    for _ in range(rng.choice([1, 2, 3, 4, 5, 6, 7, 8, 9])):
         r = rng.random()
         if r < .50:
             body.append(['spawn', gen_child(rng), rng.random() < .12])
@@ -741,10 +768,12 @@ def gen_case(rng, kinds=('plain', 'until')):
         else:
             body.append(['await_done', rng.randrange(0, 4)])
     after_block = []
-    for _ in range(rng.choice([0, 1, 1, 2])):
+    for _ in range(rng.choice([0, 0, 1, 1, 2])):
         after_block.append(['sleep', rng.choice([0, 1, 2])] if rng.random() < .5 else ['spawn', gen_child(rng, 1), False])
     main = [['sleep', rng.choice([0, 1, 1, 2, 2, 3])] for _ in range(rng.choice([0, 1, 1, 2]))]
     main_end = 'raise' if rng.random() < .15 else 'end'
+    if main_end == 'raise':
+        main.append(['sleep', enter_at + rng.choice([0, 0, 1, 2])])     # (mostly) after the owner has entered its block
     ctl = []
     for _ in range(rng.choice([2, 3, 4, 5, 6])):
         r = rng.random()
@@ -756,11 +785,11 @@ def gen_case(rng, kinds=('plain', 'until')):
             ctl.append(['cancel', rng.randrange(0, 6)])
         elif r < .92:
             ctl.append(['spawn', gen_child(rng, 1), rng.random() < .15])
-        else:
+        elif sum(a[1] for a in ctl if a[0] == 'sleep') >= enter_at:
             ctl.append(['cancel_owner'])
     if rng.random() < .7:
         ctl += [['sleep', rng.choice([1, 2, 3])], ['set', True]]
-    if rng.random() < .6:
+    if rng.random() < .4:
         ctl += [['sleep', rng.choice([1, 2, 4])], ['spawn', gen_child(rng, 2), False]]
     return dict(kind=kind, notif=notif, flag_init=flag_init, enter_at=enter_at,
                 enclose=rng.choice([None] * 7 + [1, 2, 3]),
@@ -877,7 +906,7 @@ def enc_final(fin):
         ph = [3, _CAUSE[p[1]]]
     else:
         ph = [{'Body': 0, 'SetDone': 1, 'AwaitChildren': 2}[p[0]]]
-    out = [ph, [1 if fin['interruptable'] else 0]]
+    out = [ph, [1 if fin['interruptable'] else 0, {'Idle': 0, 'Scheduled': 1, 'Revoked': 2}[fin['cancel_self']]]]
     for k in fin['kids']:
         s = k['st'].split()
         st = 10 if s[0] == 'Created' else 11 if s[0] == 'Running' else 20 + _HOW[s[1]]
@@ -938,7 +967,7 @@ def correspond(ctx, batch, tag='scope'):
     for j, (case, res) in enumerate(badcases):
         d = _decode_diag(diags[j], res) if j < len(diags) else '(no diagnosis)'
         ctx.mismatch(FAMILY, case, dict(kind=res['kind'], labels=res['labels'], final=enc_final(res['final'])), d,
-                     'final = [phase]; [interruptable]; per payload [volatile; status 10 Created 11 Running 20+how; listed; ran]; '
+                     'final = [phase]; [interruptable; _cancel_self 0 idle 1 scheduled 2 revoked]; per payload [volatile; status 10 Created 11 Running 20+how; listed; ran]; '
                      'phase 0 Body 1 SetDone 2 AwaitChildren 3 Closing c 4 Exited c o')
 
 
